@@ -307,6 +307,12 @@ def run(chk: Check, model):
                                       "vertices[input_name].ts_start, which is not sorted for padded episodes of a given graph", chk.loc(f_ep, ss[0].node))
                     else:
                         chk.unknown("C12.mask", "assignment scan", "expected one scan over the arrival times", chk.loc(f_ep))
+    # per node: the computation delay generated with is the node's own delay distribution, its first start the node's phase
+    per_node = [e for e in r.events if e.kind == "store_sub" and e.func == fi.qualname and len(e.loops) == 1 and e.key is not None and e.key[0] == "attr" and e.key[2] == "name"]
+    comp_ = [e for e in per_node if not (e.term[0] == "call" and T.call_name(e.term).endswith("StaticDist.create"))]
+    okn = len(comp_) == 1 and comp_[0].term == T.mk_attr(comp_[0].key[1], "delay_dist")
+    chk.add("C12.scan", "each node is generated with its own computation-delay distribution", bool(okn), f"the computation delay stored for a node is "
+            f"{T.show(comp_[0].term)[:160] if comp_ else None}, expected <node>.delay_dist of the same node", chk.loc(fi, comp_[0].node if comp_ else None))
     # communication delay table keyed by (sender, receiver) — and every connection of every node is covered
     st, comps = _conn_table(r, fi)
     ok = len(st) in (1, 2) and len(comps) == 2 and all(e.key == st[0].key for e in st) and st[0].key[0] == "tuple"
